@@ -63,7 +63,7 @@ theorem C03_delivery_once (U : Universe) (hU : U.WF) (hp : Passive U) (held hint
     (hok : (execOp U fuel' (run U fuel (init held hints) ops) (.dispatch ev args)).2 = .ok) :
     ∃ called : List (Obj × String),
       (execOp U fuel' (run U fuel (init held hints) ops) (.dispatch ev args)).1.log =
-        (called.map (cbEntry args)).reverse ++ (run U fuel (init held hints) ops).log ∧
+        (called.map (cbEntry U args)).reverse ++ (run U fuel (init held hints) ops).log ∧
       called.Nodup ∧
       (∀ p, p ∈ called ↔ p ∈ evl (run U fuel (init held hints) ops) ev ∧
                           (run U fuel (init held hints) ops).alive p.1 = true) := by
